@@ -768,6 +768,11 @@ func (g *Rig) unmet(parked bool) string {
 	if v := g.rep.TrigDec.Load(); v < int64(m.TotTrigDec) {
 		return fmt.Sprintf("TriggerCountDec total %d < %d", v, m.TotTrigDec)
 	}
+	// a start goroutine whose trigger has ended still walks through trigger.init.before_store;
+	// it must be past it before the next step can arm that window for another goroutine
+	if n := g.sched.Count(PtInit); n < m.InitArrivals {
+		return fmt.Sprintf("%d start goroutines at %s, model expects %d", n, PtInit, m.InitArrivals)
+	}
 	for _, p := range m.Periods {
 		if p.ExpStarts > 0 {
 			recs := g.src.StartOf(p.Creator)
